@@ -1370,6 +1370,14 @@ func (c *Conn) sendPending(id uint32) error {
 
 		err := c.flushData(id, body, end)
 
+		// Closing the body stream writes to the caller's Request, so it happens
+		// while the Ctx is still ours: after the release RoundTrip may return
+		// (the response can be in before the last DATA frame is out) and the
+		// caller is free to put the Request back in its pool.
+		if err == nil && end {
+			c.closeBodyStream(pb)
+		}
+
 		pb.ctx.release()
 
 		if err != nil {
@@ -1377,7 +1385,6 @@ func (c *Conn) sendPending(id uint32) error {
 		}
 
 		if end {
-			c.closeBodyStream(pb)
 			return nil
 		}
 	}
